@@ -126,6 +126,78 @@ def L4(ctx, rule="L4"):
         ctx.unverifiable(rule, "floor", "-", "expected >= 2 per-function bodies of the concurrent families, found %d" % n)
 
 
+def L5(ctx, rule="L5"):
+    """no async lock is re-acquired for writing while a guard of the same lock is still alive in the same future (tokio's
+    RwLock is not re-entrant: `x.read().await` held across `x.write().await` - directly or inside an awaited helper -
+    waits for itself forever)"""
+    m, fb, fl = ctx.model, ctx.fb, ctx.model.flow
+    n = 0
+    WRITE = ("tokio::sync::RwLock::<T>::write", "tokio::sync::Mutex::<T>::lock")
+    ACQ = ("tokio::sync::RwLock::<T>::write", "tokio::sync::RwLock::<T>::read", "tokio::sync::Mutex::<T>::lock")
+
+    def writes_param(hid):
+        """parameter indices of async fn `hid` whose lock it (transitively) acquires for writing"""
+        out = set()
+        for x in m.reach_calls(hid):
+            xb = fb.bodies[x]
+            for bb2, t2 in xb.calls():
+                if callee_path(t2) in WRITE and t2["args"]:
+                    for q in fl.sources_operand(xb, t2["args"][0], (), "prov@" + hid):
+                        if q.kind == "param" and q[1] == hid:
+                            out.add(q[2])
+        return out
+    for b in fb.prod_bodies():
+        if b.kind != "coroutine":
+            continue
+        aws = awaits(b)
+        acq = []
+        for a in aws:
+            if a.operand.get("k") == "const" or a.ready_bb is None:
+                continue
+            d = get_defs(b).unique_full(a.operand["pl"]["l"])
+            if not d or d[0] != "call":
+                continue
+            p_ = callee_path(d[3]) or ""
+            if p_ in ACQ and d[3]["args"]:
+                acq.append((a, p_, d[1], fl.sources_operand(b, d[3]["args"][0]), None))
+            elif p_ in fb.bodies:
+                for pi in sorted(writes_param(p_)):
+                    if pi - 1 < len(d[3]["args"]):
+                        acq.append((a, "helper " + short(p_), d[1], fl.sources_operand(b, d[3]["args"][pi - 1]), p_))
+        for (a1, p1, bb1, l1, h1) in acq:
+            if h1 is not None or not l1:
+                continue        # a helper's guards end with the helper
+            n += 1
+            # blocks where the guard obtained by a1 is dropped (the guard itself or what it was moved into)
+            gl = {a1.result_local}
+            for bb2, si2, s2 in b.stmts():
+                if s2["k"] == "assign" and s2["rv"]["k"] == "use" and s2["rv"]["op"].get("k") == "move" and not s2["rv"]["op"]["pl"]["p"] and \
+                        s2["rv"]["op"]["pl"]["l"] in gl and not s2["pl"]["p"]:
+                    gl.add(s2["pl"]["l"])
+            drops = set()
+            for x, blk in enumerate(b.blocks):
+                t_ = blk["term"]
+                if t_["k"] == "drop" and t_.get("pl", {}).get("l") in gl and not t_["pl"]["p"]:
+                    drops.add(x)
+                if t_["k"] == "call" and callee_path(t_) == "std::mem::drop" and t_["args"] and t_["args"][0].get("k") == "move" and \
+                        t_["args"][0]["pl"]["l"] in gl:
+                    drops.add(x)
+            live = b.reachable(a1.ready_bb, avoid=drops) | {a1.ready_bb}
+            bad = []
+            for (a2, p2, bb2, l2, h2) in acq:
+                if a2 is a1 or not (p2 in WRITE or h2 is not None):
+                    continue
+                if bb2 in live and l2 and set(l2) == set(l1):
+                    bad.append("%s at %s" % (p2.split("::")[-1], b.loc(bb2)))
+            ctx.check(not bad, rule, "no-self-deadlock|%s|%d" % (short(b.id), bb1), m.where(b, bb1),
+                      "the guard taken here is released before the same lock is acquired for writing again",
+                      "the guard taken by %s is still alive when the same lock is acquired for writing (%s): the future waits for itself "
+                      "and never completes" % (p1.split("::")[-1], bad[:2]))
+    ctx.counts[rule] = n
+    if n < 2:
+        ctx.unverifiable(rule, "floor", "-", "expected >= 2 awaited lock acquisitions in the crate, found %d" % n)
+
+
 def L3(ctx, rule="L3"):
     """`limit` influences nothing but for_each_concurrent's limit argument: no
     channel capacity, lock or loop bound derives from it (otherwise a small
